@@ -77,7 +77,8 @@ func (o *oracleState) atFixedPoint(s *Sim) {
 		}
 	}
 	// C03: scale-in at slot k removed pod k and nothing else
-	for name, w := range o.scaleIn {
+	for _, name := range sortedKeys(o.scaleIn) {
+		w := o.scaleIn[name]
 		if !w.clean {
 			continue
 		}
